@@ -36,7 +36,7 @@ var (
 	distinct = map[string]bool{}
 	nviol    int
 	wd       string
-	names    = []string{"main", "b", "ab", "a", "a.b", "C"}
+	names    = []string{"main", "b", "ab", "a", "a.lock", "C", "c"}
 	h1, h2   sha.SHA1
 )
 
